@@ -88,3 +88,14 @@ Lemma nth_repeat_lt {A} (a d : A) n p : p < n -> nth p (repeat a n) d = a.
 Proof. revert p. induction n; intros [|p] H; cbn; try lia; auto. apply IHn. lia. Qed.
 Lemma map_const_repeat {A B} (f : A -> B) (b : B) l : (forall x, In x l -> f x = b) -> map f l = repeat b (length l).
 Proof. induction l as [|x l IH]; cbn; intro H; [reflexivity|]. rewrite H by now left. f_equal. apply IH. intros; apply H; now right. Qed.
+
+Lemma Forall_firstn {A} (P : A -> Prop) n l : Forall P l -> Forall P (firstn n l).
+Proof. revert l. induction n; intros [|x l] H; cbn; try constructor; inversion H; auto. Qed.
+Lemma Forall_skipn {A} (P : A -> Prop) n l : Forall P l -> Forall P (skipn n l).
+Proof. revert l. induction n; intros [|x l] H; cbn; auto. inversion H; auto. Qed.
+Lemma reshape_Forall {A} (P : A -> Prop) n v (l : list A) : Forall P l -> Forall (Forall P) (reshape n v l).
+Proof.
+  revert l. induction n as [|n IH]; cbn; intros l H; constructor.
+  - now apply Forall_firstn.
+  - apply IH. now apply Forall_skipn.
+Qed.
